@@ -334,7 +334,25 @@ class SchemaGetFieldVals(FnSpec):
         for ax in val_axioms():
             cx.assume(ax)
         ob = ModelObj("PartialModel", name="obj")
-        ob.fields["__constants__"] = SSet.fresh(STR, "declared_constants")
+        base_set = SSet.fresh(STR, "declared_constants")
+
+        class ConstDict(SSet):
+            """__constants__ (name -> constant value): membership is what counts; the VALUE of a constant may be falsy (0, False, '')"""
+
+            def meth_get(s, cx2, k, d=None):
+                if d is not None:
+                    raise Unsupported("__constants__.get with a default")
+                kt = k.t if isinstance(k, SStr) else z3.StringVal(k)
+
+                class ConstValue(SVal):
+                    def py_truth(s2, cx3):
+                        return z3.Function("constant_value_is_truthy", z3.StringSort(), z3.BoolSort())(kt)
+
+                from pyvc.values import SMaybe
+
+                return SMaybe(z3.Not(s.has(kt)), ConstValue())
+
+        ob.fields["__constants__"] = ConstDict(base_set.kt, base_set.dom)
         ob.fields["__fields__"] = SMap.fresh(STR, TVal(), "declared_fields")
         a = A(cls=SClass("PartialSchemas"), obj=ob)
         a.base = SMap.fresh(STR, TVal(), "provided_by_the_generic_factory")
@@ -807,10 +825,127 @@ def build(reg):
     from . import oneliners, schemachecks
 
     specs = specs + oneliners.add_oneliners(reg, props=("C14",)) + [schemachecks.CheckAllowedTypes()]
-    specs = specs + [NestedPartialBody(), vfp]  # _nested_partial: body verified on its own (callers keep the binding above)
+    specs = specs + [NestedPartialBody(), vfp, GetPartial()]  # _nested_partial: body verified on its own (callers keep the binding above)
     return {
         "verify": specs,
         "lemmas": [("field-merge-monoid", lemma_monoid)],
         "trusted": [T5, T5_DICT, "T4 list concatenation and set union are associative (used only in the lemma)"],
         "assumptions": ["field values are abstracted to kinds None/list/set/model/other; `get_partial(type(v)).cast(v)` and nested merge_with are uninterpreted functions (the recursion is handled by merge_with's own contract)", "precondition: the two values of one field have the same kind unless one is None (type-consistent partials of one schema)"],
     }
+
+
+# ---- PartialFactory.get_partial: one partial class per MODEL CLASS (identity), created once ------------------------------------------------------------------
+class PartialTok(SVal):
+    def __init__(self, origin):
+        self.origin = origin  # "cached-for-this-class" | "created-for-this-class" | "filed-under-the-same-NAME"
+
+    def py_truth(self, cx):
+        return True
+
+    def meth_update_forward_refs(self, cx, **kw):
+        cx.effect("resolve-forward-refs", self.origin, kw.get("__symbolic_kwargs__"))
+
+
+class GetPartial(FnSpec):
+    file = "schema/partial.py"
+    qual = "PartialFactory.get_partial"
+    props = ("C14",)
+
+    def init(self):
+        from pyvc.api import LoopSpec
+
+        self.loops[0] = LoopSpec(lambda cx, env, it: [], modifies=["model"])
+
+    def setup(self, cx):
+        from pyvc.containers import SeqIter
+        from pyvc.values import SMaybe
+
+        first_use = z3.Bool("first_use_of_this_factory")
+        cached = z3.Bool("a_partial_is_cached_for_this_very_class")
+        name_taken = z3.Bool("another_class_of_the_same_module_and_name_has_a_partial")
+
+        class Inner(SVal):
+            as_kwargs = True
+
+            def __init__(s, kind):
+                s.kind = kind
+
+            def meth_get(s, cx2, k, d=None):
+                if s.kind == "partials":
+                    if k is not a.mcls:
+                        raise Unsupported("lookup of another class")
+                    return SMaybe(z3.Not(cached), PartialTok("cached-for-this-class"))
+                return SMaybe(z3.Not(name_taken), PartialTok("filed-under-the-same-NAME"))
+
+            def py_setitem(s, cx2, k, v):
+                cx2.effect("store", s.kind, k, v)
+
+            def py_getitem(s, cx2, k):
+                return s.meth_get(cx2, k)
+
+        class Outer(SVal):
+            def __init__(s, kind):
+                s.kind, s.inner = kind, Inner(kind)
+
+            def py_contains(s, cx2, k):
+                return SBool(z3.Not(first_use))
+
+            def py_setitem(s, cx2, k, v):
+                cx2.effect("init-factory-table", s.kind)
+
+            def py_getitem(s, cx2, k):
+                return s.inner
+
+        class Nested(SVal):
+            n = z3.Int("number_of_nested_models")
+
+            def at(s, i):
+                return ("nested-model", i)
+
+            def py_iter_schema(s, cx2):
+                return SeqIter(s)
+
+        class Mcls(SVal):
+            def meth_update_forward_refs(s, cx2, **kw):
+                cx2.effect("model-forward-refs")
+
+        class Factory(SVal):
+            def meth__create_partial(s, cx2, m, typehints=None):
+                cx2.effect("create", m, typehints)
+                return (PartialTok("created-for-this-class"), Nested())
+
+            def meth__partial_forwardref_name(s, cx2, m):
+                return ("forwardref-name-of", m)
+
+            def meth_get_partial(s, cx2, m):
+                cx2.effect("nested-partial", m)
+
+        self.bindings["_partials"], self.bindings["_forwardrefs"] = Outer("partials"), Outer("forwardrefs")
+        a = A(cls=Factory(), mcls=Mcls(), typehints="the-typehints")
+        a.cached = cached
+        cx.assume(Nested.n >= 0)
+        return a
+
+    def raises(self, cx, a):
+        return {}
+
+    def ensures(self, cx, a, res):
+        fx = [e[:-1] for e in cx.fx]
+        created = [e for e in fx if e[0] == "create"]
+        stores = [e for e in fx if e[0] == "store"]
+        from pyvc.values import SMaybe
+
+        if isinstance(res, SMaybe):  # (a value that was tested for truth on the way)
+            res = res.val
+        ok_tok = isinstance(res, PartialTok)
+        if not ok_tok:
+            return [("a-partial-class", z3.BoolVal(False), "")]
+        if res.origin == "cached-for-this-class":
+            return [("a-cached-partial-is-the-one-of-this-very-class-and-nothing-is-created", z3.And(a.cached, z3.BoolVal(not created and not stores)), "a partial is reused only when it was made for this very model class (looked up by the class object)")]
+        ok = res.origin == "created-for-this-class" and len(created) == 1 and created[0][1] is a.mcls and created[0][2] == "the-typehints"
+        filed = [e for e in stores if e[1] == "partials" and e[2] is a.mcls and e[3] is res] and [e for e in stores if e[1] == "forwardrefs" and e[2] == ("forwardref-name-of", a.mcls) and e[3] is res]
+        blocked = bool(stores) and stores[0][1:] == ("partials", a.mcls, None)
+        return [
+            ("otherwise-a-partial-created-for-this-class", z3.And(z3.Not(a.cached), z3.BoolVal(bool(ok))), "a class without a cached partial gets one created FOR IT — never the partial of another class that merely has the same module and name (generated classes, version-unspecified plugin handles)"),
+            ("spot-blocked-first-then-filed-under-class-and-name", z3.BoolVal(bool(blocked and filed)), "the slot is blocked before creation (recursive models) and the result is filed under the class and under its forward-reference name"),
+        ]
